@@ -773,6 +773,9 @@ func idemClass(out, out2 string) string {
 			if k < len(x) {
 				next = charClass(x[k])
 			}
+			if next == "/" {
+				return "second-pass-adds-space-before-comment"
+			}
 			return "second-pass-adds-space/" + prev + "_" + next
 		case beforeComment(x) == beforeComment(y) && strings.HasSuffix(beforeComment(x), "}") && strings.HasPrefix(strings.TrimSpace(x), "{"):
 			return "comment-after-last-message-literal-of-array"
